@@ -148,6 +148,9 @@ type Check struct {
 	HangIsViolation  bool
 	CrashIsViolation bool
 	NonDeterministic bool // arm-B style checks: excluded from the determinism self-test
+	// MapOrderSensitive: the run's event log legitimately depends on Go map iteration order inside data-server
+	// (which no seam can seed); the self-test reports divergences for such checks but does not fail on them.
+	MapOrderSensitive bool
 	// Run executes one simulated run. It is called inside a synctest bubble unless NoBubble.
 	Run func(rc *RunCtx)
 	// RequiredProbes must be > 0 over a whole batch, else the check exits 2 ("cannot observe").
